@@ -40,6 +40,22 @@ CORPUS.append(
                 {"c": "shutdown", "wait": True, "cancel": False}],
      "gates": [0], "perturb": {}, "seed": 5, "timeout": 20, "settle": 6})
 
+CORPUS.append(
+    # a raising call first, then more gated calls than the limit admits: the slots of the failed call come back exactly once
+    {"executor": {"backend": "local", "block_allocation": False, "max_cores": 2, "disable_dependencies": True},
+     "calls": [{"base": 1, "fail": "value", "args": [], "kwargs": {}}] + [{"base": 10 * k, "gate": 0, "args": [], "kwargs": {}} for k in (1, 2, 3, 4)],
+     "script": [{"c": "submit"}, {"c": "await", "i": 0}, {"c": "submit"}, {"c": "submit"}, {"c": "submit"}, {"c": "submit"},
+                {"c": "wait_enter", "i": 1}, {"c": "wait_enter", "i": 2}, {"c": "sleep", "ms": 900}, {"c": "release", "g": 0},
+                {"c": "shutdown", "wait": True, "cancel": False}],
+     "gates": [0], "perturb": {}, "seed": 6, "timeout": 20, "settle": 6})
+CORPUS.append(
+    {"executor": {"backend": "local", "block_allocation": False, "max_workers": 2, "disable_dependencies": False},
+     "calls": [{"base": 1, "fail": "user", "args": [], "kwargs": {}}] + [{"base": 10 * k, "gate": 0, "args": [], "kwargs": {}} for k in (1, 2, 3, 4)],
+     "script": [{"c": "submit"}, {"c": "await", "i": 0}, {"c": "submit"}, {"c": "submit"}, {"c": "submit"}, {"c": "submit"},
+                {"c": "wait_enter", "i": 1}, {"c": "wait_enter", "i": 2}, {"c": "sleep", "ms": 900}, {"c": "release", "g": 0},
+                {"c": "shutdown", "wait": True, "cancel": False}],
+     "gates": [0], "perturb": {}, "seed": 7, "timeout": 20, "settle": 6})
+
 REQUIRED = ["dGet", "dLaunch", "dPrune", "dAck", "wSend", "wFinish"]
 
 
